@@ -22,14 +22,17 @@ type SolverCfg struct {
 	TrustSat bool
 }
 
+// Order: the E-matching configuration answers (unsat or unknown) within a fraction of a second on
+// quantified goals; cvc5 decides some of the rest; the model-based configurations come last because
+// they are the ones that can produce counterexamples but may also run into the timeout.
 var solvers = []SolverCfg{
+	{"z3-5.1-ematch", func(f string, t int) []string {
+		return []string{"z3-new", fmt.Sprintf("-T:%d", t), "smt.auto_config=false", "smt.mbqi=false", f}
+	}, false},
 	{"z3-5.1", func(f string, t int) []string { return []string{"z3-new", fmt.Sprintf("-T:%d", t), f} }, true},
 	{"cvc5-1.0", func(f string, t int) []string {
 		return []string{"cvc5", fmt.Sprintf("--tlimit=%d", t*1000), f}
 	}, true},
-	{"z3-5.1-ematch", func(f string, t int) []string {
-		return []string{"z3-new", fmt.Sprintf("-T:%d", t), "smt.auto_config=false", "smt.mbqi=false", f}
-	}, false},
 	{"z3-4.8", func(f string, t int) []string { return []string{"z3", fmt.Sprintf("-T:%d", t), f} }, true},
 }
 
